@@ -8,7 +8,9 @@ from d42.declaration import DeclarationError
 from d42.utils import make_required
 
 MODULE = "D42.Props.C13"
-THEOREMS = []
+THEOREMS = ["union_meaning", "flattenAny_meaning", "anyCall_meaning", "alias_meaning", "add_meaning", "add_relaxed",
+            "dict_meaning", "mergeFields_table", "makeRequired_meaning", "makeRequired_all_meaning",
+            "makeRequired_unknown_key", "getItem_spec", "getItem_missing"]
 FILES = ["D42/Model/Data.lean", "D42/Model/Validate.lean", "D42/Model/Decl.lean", "D42/Spec/Conforms.lean", "D42/Props/C13.lean"]
 
 EVIDENCE = dict(
